@@ -253,8 +253,7 @@ func (m *mon) finish() {
 		runtime.Gosched()
 	}
 	after := ucfgGoroutines()
-	for id, stack := range after {
-		_ = stack
+	for id := range after {
 		if !m.before[id] {
 			m.res.Violate("goroutine-leak", "goroutine with go-ucfg frames still alive after the case: %s", stackOf(id))
 			break
